@@ -132,6 +132,13 @@ def run(tier, seed, replay=None):
               "(do (define b 2) ((fn [b] (let ([b 7]) b) (set [b (* b 2)]) b) 4))",
               "(do (define b 2) (list (let ([b 3]) (let ([q 0]) (let ([b 4]) b)) (set [b 9]) b) b))"]:
         texts.append(('threelevel', t))
+    # a variadic parameter (fn args ...) is a binder like any other: it shadows an outer variable of the same name,
+    # and only that name (an outer one-letter variable whose letter occurs in it is still the outer one)
+    for t in ["(do (define items 7) (define s 5) (list ((fn items (length items)) 1 2 3) ((fn items (set [s 9]) (length items)) 1 2) s items))",
+              "(do (define args 1) (define a 2) (define r 3) (list ((fn args (set [a 20]) (set [r (+ r 30)]) (first args)) 4 5) a r args))",
+              "(do (define xs 1) (define x 2) (define f (fn xs (set [x (+ x 1)]) (list x (length xs)))) (list (f) (f 1 2) x xs))",
+              "(do (define b 2) (define ab 3) (let ([a 1]) ((fn ab (set [a (+ a 1)] [b (+ b 1)]) (list a b ab)) 9)))"]:
+        texts.append(('variadic', t))
     pre_of = {}
     for mdef, progs in USER_MACROS:
         for t in progs:
